@@ -751,13 +751,35 @@ impl ClusterHandler for NocHandler {
 
         let (status, opener_fabric_removed) = ctx.exchange().with_state(|state| {
             let sess = ctx.exchange().id().session(&mut state.sessions);
+            let sess_id = sess.id();
+            let sess_fab_idx = sess.get_local_fabric_idx();
 
-            if state.fabrics.remove(fab_idx).is_ok() {
+            // The fail-safe context might be associated with the very fabric being removed
+            // (a fabric added by `AddNOC` and not committed yet, or the fabric whose
+            // administrator armed the fail-safe). The context must not outlive the fabric -
+            // its expiry would fail on the missing fabric for ever. So force it to expire
+            // first: that drops a not yet committed fabric, or restores the persisted state
+            // of a committed one, which is then removed below.
+            let mut rolled_back = false;
+            if state.failsafe.is_armed_for(fab_idx.get()) && state.fabrics.get(fab_idx).is_some() {
+                let removed_fabric = state.failsafe.expire(
+                    &mut state.fabrics,
+                    &mut state.sessions,
+                    Some(sess_id),
+                    ctx.networks(),
+                    ctx.kv(),
+                    &notify_mdns,
+                    |endpt_id, clust_id| ctx.notify_cluster_changed(endpt_id, clust_id),
+                )?;
+
+                rolled_back = removed_fabric == Some(fab_idx);
+            }
+
+            if rolled_back || state.fabrics.remove(fab_idx).is_ok() {
                 // If our own session is running on the fabric being removed,
                 // we need to expire it rather than immediately remove it, so that
                 // the response can be sent back properly
-                let expire_sess_id =
-                    (sess.get_local_fabric_idx() == fab_idx.get()).then_some(sess.id());
+                let expire_sess_id = (sess_fab_idx == fab_idx.get()).then_some(sess_id);
 
                 // Remove all sessions related to the fabric being removed
                 // If `expire_sess_id` is Some, the session will be expired instead of removed.
